@@ -144,9 +144,13 @@ impl Vtx {
         while null_terminators_read != 5 {
             let mut strings_partial_buffer = [0u8; READ_STRING_BUFFER_SIZE];
             let bytes_read = reader.read(&mut strings_partial_buffer)?;
+            if bytes_read == 0 {
+                // End of file before all strings were terminated
+                break;
+            }
             let mut current_buffer_bytes_count = 0;
             while current_buffer_bytes_count < bytes_read {
-                if let Some(pos) = strings_partial_buffer[current_buffer_bytes_count..]
+                if let Some(pos) = strings_partial_buffer[current_buffer_bytes_count..bytes_read]
                     .iter()
                     .position(|x| *x == b'\0')
                 {
@@ -181,11 +185,11 @@ impl Vtx {
             .map(|buf| String::from_utf8_lossy(buf).into_owned())
             .collect::<Vec<_>>();
 
-        assert_eq!(
-            strings.len(),
-            EXPECTED_STRINGS_COUNT,
-            "Iterator size should be assured above"
-        );
+        if strings.len() != EXPECTED_STRINGS_COUNT {
+            return Err(VtxError::InvalidHeader {
+                message: "Invalid strings block",
+            });
+        }
 
         let comment = strings.pop().unwrap();
         let tracker = strings.pop().unwrap();
@@ -193,11 +197,20 @@ impl Vtx {
         let author = strings.pop().unwrap();
         let title = strings.pop().unwrap();
 
-        let mut transposed_frame_data = vec![0u8; decompressed_frames_size as usize];
+        // Decode in small portions: the size in the header is not trusted for the allocation
+        const DECODE_CHUNK_SIZE: usize = 4096;
+        let mut transposed_frame_data = Vec::new();
         let mut decoder = Lh5Decoder::new(reader);
-        decoder
-            .fill_buffer(&mut transposed_frame_data)
-            .map_err(|_| VtxError::DecompressFailure)?;
+        let mut bytes_left = decompressed_frames_size as usize;
+        let mut chunk = [0u8; DECODE_CHUNK_SIZE];
+        while bytes_left > 0 {
+            let chunk_size = bytes_left.min(DECODE_CHUNK_SIZE);
+            decoder
+                .fill_buffer(&mut chunk[..chunk_size])
+                .map_err(|_| VtxError::DecompressFailure)?;
+            transposed_frame_data.extend_from_slice(&chunk[..chunk_size]);
+            bytes_left -= chunk_size;
+        }
 
         // VTX originally stores pre-transposed data, therefore we need to tarnspose it
         let frames_count = transposed_frame_data.len() / AY_REGISTER_COUNT;
